@@ -88,7 +88,9 @@ func (o c13cOut) String() string {
 
 // ---- sequential specifications (state = canonical string; "" = key absent) ----
 
-func c13cListState(items []string) string { return "L" + strings.Join(append([]string{""}, items...), ",") }
+func c13cListState(items []string) string {
+	return "L" + strings.Join(append([]string{""}, items...), ",")
+}
 func c13cListItems(st string) []string {
 	if st == "L" {
 		return nil
@@ -520,9 +522,9 @@ type c13cHistStats struct {
 	illegal      map[string]bool
 	checkerSpent time.Duration
 	overlapping  int64
-	ops         int64
-	pairs       map[string]struct{}
-	counts      map[string]int64
+	ops          int64
+	pairs        map[string]struct{}
+	counts       map[string]int64
 }
 
 // c13cOverlap counts operations whose interval overlaps the next-called operation of the
@@ -630,7 +632,7 @@ func c13RunConcHistory(run *vk.Run, hidx int, r *rand.Rand, keys []c13cKeySpec, 
 			agg.illegal[ks.Profile] = true
 			run.Violation("C13:nonlinearizable|model="+ks.Profile, map[string]any{
 				"history": hidx, "goroutines": ng, "key": ks.Key, "ops_on_key": len(recs),
-				"note":    "no sequential order of these completed operations, consistent with their call/return order, is allowed by the " + ks.Profile + " specification (ttl in {0, 1h}: nothing may expire)",
+				"note":                 "no sequential order of these completed operations, consistent with their call/return order, is allowed by the " + ks.Profile + " specification (ttl in {0, 1h}: nothing may expire)",
 				"history_by_call_time": c13cDump(recs, 400),
 			})
 		}
@@ -638,13 +640,14 @@ func c13RunConcHistory(run *vk.Run, hidx int, r *rand.Rand, keys []c13cKeySpec, 
 	}
 }
 
-// c13cCheckTimeout: 60 s per key history (DESIGN 2.2); the instrumented quick-tier
-// repeat gives up earlier so that the tier stays bounded. Unknown is inconclusive.
+// c13cCheckTimeout: 60 s per key history in the thorough tier (DESIGN 2.2), 15 s in
+// the quick tier so that it stays bounded on a defective tree (a legal history of this
+// size checks in well under a second). Unknown is inconclusive, never a violation.
 func c13cCheckTimeout(run *vk.Run) time.Duration {
-	if os.Getenv("VERIF_RACE") == "1" && !run.Thorough() {
-		return 20 * time.Second
+	if run.Thorough() {
+		return 60 * time.Second
 	}
-	return 60 * time.Second
+	return 15 * time.Second
 }
 
 func c13cCheckBudget(run *vk.Run) time.Duration {
@@ -682,7 +685,7 @@ func TestVerifC13Concurrent(t *testing.T) {
 	vk.Quiet()
 	run := vk.Start(t, "C13", "concurrent")
 	defer run.Finish()
-	run.Rule("4-8 goroutines x 200 operations on 2 keys of one memory.Storage, key families per history from {register/setnx, register/cas, list, counter}, ttl in {0,1h}, unique written values; per-key history checked with porcupine (60 s timeout => inconclusive); distinct = (family, unordered pair of operation kinds observed overlapping in time)")
+	run.Rule("4-8 goroutines x 200 operations on 2 keys of one memory.Storage, key families per history from {register/setnx, register/cas, list, counter}, ttl in {0,1h}, unique written values; per-key history checked with porcupine (timeout 60 s thorough / 15 s quick => Unknown => inconclusive); distinct = (family, unordered pair of operation kinds observed overlapping in time)")
 	nh := c13cBudget(run, 60, 2000)
 	r := run.Rand("conc")
 	combos := [][]c13cKeySpec{
